@@ -28,7 +28,9 @@ pub const NONCES: [u64; 3] = [1, 2, 3];
 pub const MAX_BYTES: [Option<usize>; 4] = [None, Some(64), Some(16), Some(0)];
 
 fn issued_at(idx: u8) -> SystemTime {
-    UNIX_EPOCH + Duration::from_secs(1_000_000) + (LIFETIME / 2) * ISSUED_HALVES[idx as usize] as u32
+    UNIX_EPOCH
+        + Duration::from_secs(1_000_000)
+        + (LIFETIME / 2) * ISSUED_HALVES[idx as usize] as u32
 }
 
 #[derive(Clone, Copy, Debug, PartialEq, Eq)]
@@ -37,7 +39,19 @@ pub struct Present {
     pub issued: u8,
 }
 
+#[derive(Clone, Copy, Debug, PartialEq, Eq)]
+pub struct BloomCfg {
+    pub max_bytes: Option<usize>,
+    /// `false`: only presentations a server with a monotone clock passes to the log (the
+    /// documented contract). `true`: every presentation in any order (stronger than documented;
+    /// a double acceptance there is only recorded as an outcome, not as a violation).
+    pub any_order: bool,
+}
+
 pub struct BloomSys {
+    any_order: bool,
+    /// Every presentation so far was one a monotone-clock server would have made
+    legal: bool,
     real: BloomTokenLog,
     /// Largest issue time (in half lifetimes) presented so far: a lower bound of the server clock
     max_issued: Option<u64>,
@@ -48,21 +62,23 @@ pub struct BloomSys {
 impl BloomSys {
     fn model_str(&self) -> String {
         format!(
-            "clock>={:?} half-lifetimes, accepted={:?}, false rejections={}",
-            self.max_issued, self.accepted, self.false_rejects
+            "clock>={:?} half-lifetimes, legal={}, accepted={:?}, false rejections={}",
+            self.max_issued, self.legal, self.accepted, self.false_rejects
         )
     }
 }
 
 impl Sys for BloomSys {
-    type Cfg = Option<usize>;
+    type Cfg = BloomCfg;
     type Op = Present;
     const NAME: &'static str = "bloom_token_log";
     const MERGE: bool = false;
 
-    fn new(cfg: &Option<usize>) -> Self {
+    fn new(cfg: &BloomCfg) -> Self {
         Self {
-            real: match cfg {
+            any_order: cfg.any_order,
+            legal: true,
+            real: match &cfg.max_bytes {
                 None => BloomTokenLog::default(),
                 Some(b) => BloomTokenLog::new_expected_items(*b, 8),
             },
@@ -80,11 +96,14 @@ impl Sys for BloomSys {
         for issued in 0..ISSUED_HALVES.len() as u8 {
             let t = ISSUED_HALVES[issued as usize];
             // lifetime = 2 half-lifetimes
-            if self.max_issued.is_some_and(|m| t + 2 < m) {
+            if !self.any_order && self.max_issued.is_some_and(|m| t + 2 < m) {
                 continue;
             }
             for nonce in NONCES {
-                v.push(Present { nonce: nonce as u8, issued });
+                v.push(Present {
+                    nonce: nonce as u8,
+                    issued,
+                });
             }
         }
         v
@@ -94,13 +113,28 @@ impl Sys for BloomSys {
         // The log only looks at the low 64 bits; distinct tokens sharing them may collide
         // (a permitted false rejection) but are distinct tokens.
         let nonce = ((op.issued as u128 + 1) << 64) | op.nonce as u128;
-        let r = self.real.check_and_insert(nonce, issued_at(op.issued), LIFETIME);
+        let r = self
+            .real
+            .check_and_insert(nonce, issued_at(op.issued), LIFETIME);
         let t = ISSUED_HALVES[op.issued as usize];
+        if self.max_issued.is_some_and(|m| t + 2 < m) {
+            self.legal = false;
+        }
         self.max_issued = Some(self.max_issued.map_or(t, |m| m.max(t)));
         let id = (op.nonce, op.issued);
-        let real = if r.is_ok() { "Ok" } else { "Err(TokenReuseError)" };
+        let real = if r.is_ok() {
+            "Ok"
+        } else {
+            "Err(TokenReuseError)"
+        };
         if r.is_ok() {
             if !self.accepted.insert(id) {
+                if !self.legal {
+                    return StepOut::ok(
+                        "Ok (second acceptance, in a history outside the documented contract)",
+                        self.model_str(),
+                    );
+                }
                 return StepOut::bad(
                     real,
                     self.model_str(),
@@ -121,14 +155,21 @@ impl Sys for BloomSys {
         self.model_str()
     }
 
-    fn cfg_json(c: &Option<usize>) -> Value {
-        json!({ "max_bytes": c })
+    fn cfg_json(c: &BloomCfg) -> Value {
+        json!({ "max_bytes": c.max_bytes, "any_order": c.any_order })
     }
-    fn cfg_parse(v: &Value) -> Option<Option<usize>> {
-        Some(v["max_bytes"].as_u64().map(|x| x as usize))
+    fn cfg_parse(v: &Value) -> Option<BloomCfg> {
+        Some(BloomCfg {
+            max_bytes: v["max_bytes"].as_u64().map(|x| x as usize),
+            any_order: v["any_order"].as_bool().unwrap_or(false),
+        })
     }
     fn op_json(op: &Present) -> Value {
-        json!(["check_and_insert", op.nonce, format!("t0+{}*L/2", ISSUED_HALVES[op.issued as usize])])
+        json!([
+            "check_and_insert",
+            op.nonce,
+            format!("t0+{}*L/2", ISSUED_HALVES[op.issued as usize])
+        ])
     }
     fn op_parse(v: &Value) -> Option<Present> {
         let a = v.as_array()?;
@@ -202,8 +243,10 @@ impl Sys for CacheSys {
             TOp::Insert(s) => {
                 let token = self.next_token;
                 self.next_token += 1;
-                self.real
-                    .insert(SERVERS[s as usize], Bytes::copy_from_slice(&token.to_be_bytes()));
+                self.real.insert(
+                    SERVERS[s as usize],
+                    Bytes::copy_from_slice(&token.to_be_bytes()),
+                );
                 if self.max_servers > 0 && self.max_tokens > 0 {
                     if let Some(i) = self.model.iter().position(|e| e.0 == s) {
                         let (_, mut q) = self.model.remove(i);
@@ -248,7 +291,12 @@ impl Sys for CacheSys {
                         );
                     }
                     if t >= self.next_token {
-                        return StepOut::bad(real, format!("{want:?}"), "token_memory_cache:unknown-token", "take returned bytes that were never inserted");
+                        return StepOut::bad(
+                            real,
+                            format!("{want:?}"),
+                            "token_memory_cache:unknown-token",
+                            "take returned bytes that were never inserted",
+                        );
                     }
                 }
                 if got != want {
@@ -256,7 +304,10 @@ impl Sys for CacheSys {
                         real,
                         format!("{want:?}"),
                         "token_memory_cache:take-mismatch",
-                        format!("take({}) = {got:?}, LRU-of-queues reference says {want:?}", SERVERS[s as usize]),
+                        format!(
+                            "take({}) = {got:?}, LRU-of-queues reference says {want:?}",
+                            SERVERS[s as usize]
+                        ),
                     );
                 }
                 StepOut::ok(real, format!("{want:?}; {}", self.model_str()))
@@ -285,7 +336,9 @@ impl Sys for CacheSys {
     }
     fn op_parse(v: &Value) -> Option<TOp> {
         let a = v.as_array()?;
-        let s = SERVERS.iter().position(|&n| Some(n) == a.get(1).and_then(|x| x.as_str()))? as u8;
+        let s = SERVERS
+            .iter()
+            .position(|&n| Some(n) == a.get(1).and_then(|x| x.as_str()))? as u8;
         match a.first()?.as_str()? {
             "insert" => Some(TOp::Insert(s)),
             "take" => Some(TOp::Take(s)),
